@@ -70,6 +70,12 @@ class Aff(SE.Interp):
     def ext_method(self, name, callee, recv, args):
         if name == "step_by":
             return ("step_by", recv, args[0])
+        if name == "collect" and isinstance(recv, tuple) and recv and recv[0] == "step_by":
+            self.iter_expr = recv
+            return ("collected", recv)
+        if name == "extend" and args and isinstance(args[0], tuple) and args[0] and args[0][0] == "step_by":
+            self.iter_expr = args[0]
+            return ("t", ())
         if name in ("div_ceil", "next_multiple_of") and is_aff(recv) and args and args[0] == self.m:
             k = recv[1]
             up = -((self.r + k) // -self.m) * self.m      # ceil to multiple
@@ -164,6 +170,9 @@ def run(ctx, w):
     for fn in (expand_fn, ctor_fn):
         TT = w.terms(fn)
         pushes = [cs for cs in E.call_sites(fn) if cs.callee.endswith("::push")]
+        if not pushes and any(cs.term["callee"].get("decl_name") in ("collect", "extend") for cs in E.call_sites(fn)):
+            ctx.ok("Z2", fn + ":push", {"fn": fn, "form": "collect/extend of the generated columns"})
+            continue
         okp = len(pushes) == 1 and "Iterator" in repr(TT.operand(pushes[0].term["args"][1], pushes[0].point)) and "next" in repr(TT.operand(pushes[0].term["args"][1], pushes[0].point))
         ctx.check(okp, "Z2", fn + ":push", "%s does not push exactly the generated column" % fn, loc=w.fn_loc(fn))
 
